@@ -24,6 +24,38 @@ CLAIMED = {
             "Theorems in lean/NodisVerif/Props/C15.lean (23): chunk_independent (the parse of one command, and of a whole connection, depends only on the byte stream, never on the fragmentation), parse_encode (any name and any arguments of arbitrary bytes within the 512 MiB protocol limit come back exactly, name upper-cased), parse_too_large (beyond the limit: an error, never a panic or an allocation), pipeline (k commands back to back, any chunking, are read in order), options_whole_argument / upper_nonascii_never_a_word, connections_independent. The model is executed against redis.Reader through a hook that serves one connection on a fake net.Conn delivering exactly the chosen fragments: every single cut and double cut of short pipelines, random fragmentations incl. byte-by-byte, arguments larger than the 4096-byte buffer, depth-1000 pipelines, malformed frames, inline commands and noise.",
             "Lean kernel + 3 standard axioms; correspondence run; net.Conn semantics (a Read returns 1..len(p) bytes of the stream in order) is an assumption of the source model; 'one connection never affects another' holds in the model by construction (no shared reader state) and is not separately tested under thread interleavings.",
             "DESIGN.md §6 C15"),
+    "C01": ("Lean 4 proof that the string/keyspace model refines an abstract key -> bytes map for whole command streams (trace factorisation of every API function + per-command refinement lemmas) + differential execution of the model against the real code through the embedded API and over TCP",
+            "Theorems in lean/NodisVerif/Props/C01.lean (78): stream_refines / stream_from_fresh / command_refines (every reply and the visible keyspace of any stream of SET(+options)/GET/GETSET/SETNX/SETEX/MSET/MGET/APPEND/STRLEN/GETRANGE/SETRANGE/INCR*/DECR*/SETBIT/GETBIT/BITCOUNT/DEL/EXISTS/TYPE/RENAME*/KEYS/DBSIZE/FLUSH equal the abstract map semantics, binary-safe, int64 counters with overflow error), per-command laws, and explicit _finding witnesses where the code deviates (BITCOUNT windows, GETRANGE far-negative stop, SET on a non-string key, empty-string key left behind). Correspondence: random + boundary streams through the embedded API (memory and Pebble, with eviction/reopen) and through the RESP handlers; known findings are replayed against the real code.",
+            "Lean kernel + 3 standard axioms; correspondence run; RANDOMKEY is validated relationally (returned key must be live); INCRBYFLOAT only on integer-valued text (float text conversion is outside the model); SafeRun restrictions on SETRANGE/SETBIT/DECRBY arguments are listed in the Props file.",
+            "DESIGN.md §6 C01"),
+    "C08": ("Lean 4 proof about the connection state machine model (MULTI/EXEC/DISCARD/WATCH, run-or-queue, panic recovery) for every schedule of commands of any number of connections + differential execution against the real server over TCP with 2-3 connections",
+            "Theorems in lean/NodisVerif/Props/C08.lean (19): between MULTI and EXEC every command is acknowledged QUEUED and leaves the store and every other connection unchanged; EXEC runs the queue exactly once in order with one reply per queued closure (exec_runs_queue_in_order), a panic in one closure yields an error reply and the rest still run; DISCARD / queue-time error / dirty watch run nothing; after EXEC or DISCARD state, queue, error flag and watches are empty. Isolation ('no other client served in the middle') holds in the model because EXEC is one step; on the implementation it is tied by the correspondence run (interleaved connections) and by the C05-C07 machinery for real concurrency.",
+            "Lean kernel + 3 standard axioms; correspondence run; disconnect handling is exercised on the implementation only; atomicity of EXEC under real thread interleavings is not in this model (one step = one command).",
+            "DESIGN.md §6 C08"),
+    "C09": ("Lean 4 proof that every writer in the full dispatch table signals every key whose content it changes, and that a signalled watched key makes EXEC reply null with no effect, for every schedule + differential execution with a direct WATCH-window oracle on the implementation",
+            "Theorems in lean/NodisVerif/Props/C09.lean (98): watch_sound / watch_sound_full (dirty watch => [nullBulk], store unchanged), table1/2/3 signals theorems (fullSafe_signals: every command outside a decidable excluded region signals all keys it changes), watch_complete (no writer of a watched key in the window => EXEC runs), watches end at EXEC/DISCARD/UNWATCH, optimistic increment loop never loses an update. Excluded region (kept as _partial + witness): DECRBY with int64 min on a missing key (known finding A-15b), SCAN with TYPE (unproved, not known false), ZREM family on an unreachable empty sorted set. Correspondence: 2-3 connection streams with WATCH windows; the harness independently compares dump before/after the window on the real server.",
+            "Lean kernel + 3 standard axioms; correspondence run; signal delivery under real thread interleavings (signal racing with EXEC) is outside this model.",
+            "DESIGN.md §6 C09"),
+    "C10": ("Lean 4 proof over the model with an explicit clock: liveness of a key is a function of (deadline, now), every command factors through it; deadline arithmetic of every TTL-setting command + differential execution on a deterministic fake clock",
+            "Theorems in lean/NodisVerif/Props/C10.lean (121): a key with deadline d is visible with its full value to every command at now < d and to none at now >= d (expired_invisible_* per command family incl. KEYS/SCAN/RANDOMKEY/RENAME/set algebra), a write to an expired key equals the write on a missing key, deadline = now + duration for EX/PX/SETEX/EXPIRE, absolute for EXAT/PXAT/EXPIREAT, NX/XX conditionals, overwrites and PERSIST clear it, KEEPTTL/APPEND/INCR keep it, TTL/PTTL rounding. GT/LT on a persistent key deviate from Redis (test-pinned known finding A-81). Correspondence: the harness is built with Go's faketime so the clock advances only by `sleep`; streams hit deadlines exactly (999/1000/1001 ms).",
+            "Lean kernel + 3 standard axioms; correspondence run under -tags faketime (GOMAXPROCS=1); wall-clock drift and the background eviction ticker are not modelled (gc is an explicit op).",
+            "DESIGN.md §6 C10"),
+    "C11": ("Lean 4 proof that close followed by reopen restores the logical keyspace for every reachable model state (invariant over all API command sequences, both backend models) + differential execution incl. a direct before/after dump comparison on the real code (memory and Pebble)",
+            "Theorems in lean/NodisVerif/Props/C11.lean (27): close_reopen_restores_reachable (same live keys, types, values, deadlines), deleted/renamed/emptied/flushed/retyped/expired keys never reappear, newer version never shadowed by an older persisted one (stored-flag invariant), reloaded values intact. Correspondence streams end with `ldump; close; reopen; ldump` and the two dumps of the REAL instance are compared directly, independent of the model.",
+            "Lean kernel + 3 standard axioms; correspondence run; Pebble itself is modelled as a key-value map with atomic batch (its durability is C13's subject).",
+            "DESIGN.md §6 C11"),
+    "C12": ("Lean 4 simulation proof: for every command sequence and every eviction schedule (gc/flush at arbitrary points) replies and logical state equal the run without eviction; failed backend writes keep entries dirty + differential execution with fault injection",
+            "Theorems in lean/NodisVerif/Props/C12.lean (35): any_eviction_schedule_invisible (+ _from_empty, _memory), command_sim, command_preserves_inv, failed write keeps the value in memory and dirty (gc_fail_keeps, flush_fail_keeps). Known finding A-121b (positional SCAN cursor shifts when an eviction pass collects an expired record) is kept as scan_gc_finding. Correspondence: streams with gc/flush/failset events on both backends.",
+            "Lean kernel + 3 standard axioms; correspondence run; the fault wrapper makes Put fail deterministically (failset n), other backend errors are not injected.",
+            "DESIGN.md §6 C12"),
+    "C16": ("Lean 4 proof that every handler of the full dispatch table writes exactly one well-formed RESP value for every argument vector, store, clock and connection state, lifted to pipelines + differential execution and a framing sweep over all dispatch-table commands on the real server",
+            "Theorems in lean/NodisVerif/Props/C16.lean (129): fullTable_ok / fullTable_wire_ok (TableOneReply for table1+table2+table3, panics included), one_reply_full for every schedule, pipeline_in_sync_full (k commands + marker => exactly k+1 values in order), bulk replies carry exactly the stored bytes with the correct header, per-command corollaries. Correspondence: the harness frames every reply with a marker ECHO and counts RESP values on the wire; the sweep sends each of the 121 registered commands with 0..5 arguments of several kinds.",
+            "Lean kernel + 3 standard axioms; correspondence run; the encoder's byte layout is modelled in Model/Resp.lean (render) and tied by comparing tokens parsed from the real wire bytes; commands missing from the model tables (GEO*, blocking pops, INFO/CONFIG...) are covered by the framing sweep only.",
+            "DESIGN.md §6 C16"),
+    "C19": ("Lean 4 proof that a full cursor iteration over an unchanged collection returns exactly its live matching elements and terminates within ceil(n/count)+1 calls, for every COUNT >= 1 and pattern + differential execution of complete iterations (scanall) against the real code",
+            "Theorems in lean/NodisVerif/Props/C19.lean (39): scan_complete / sscan / hscan / zscan (every element present for the whole iteration is returned, only live matching ones), scan_terminates with the call bound, in-memory vs storage-only values give the same result. Known findings kept with witnesses: positional cursor skips a key when an earlier key is deleted mid-iteration (A-121), embedded-API COUNT 0 never terminates (A-120b). Correspondence: scanall runs the whole cursor loop on the real server and on the model and compares the multiset and the number of calls.",
+            "Lean kernel + 3 standard axioms; correspondence run; iteration under concurrent mutation is only covered by the stated known finding, not by a positive theorem.",
+            "DESIGN.md §6 C19"),
 }
 NOT_YET = {
 }
